@@ -26,6 +26,7 @@ type C07Scenario struct {
 	Family     string `json:",omitempty"`
 	N          int    `json:",omitempty"`
 	Limits     []int64 `json:",omitempty"`
+	Lazy       string  `json:",omitempty"` // parse mode: the text is the body of a function / computed value restored from JSON
 }
 
 func tickBound(limit int64) int64 { return 16*limit + 4096 }
@@ -63,6 +64,10 @@ func c07Gen(seed uint64, tier string) any {
 		sc.Src = g.Program(r.Range(1, 4))
 		if r.Chance(1, 4) {
 			sc.Src = Pick(r, []string{strings.Repeat("(", 30) + "1" + strings.Repeat(")", 30), strings.Repeat("[", 30) + "1" + strings.Repeat("]", 30), "1" + strings.Repeat("+1", 300), strings.Repeat("a.b.", 40) + "c", strings.Repeat("-", 200) + "1"})
+		}
+		sc.Lazy = Pick(r, []string{"", "", "func", "computed"})
+		if sc.Lazy != "" && r.Chance(1, 3) {
+			sc.Src = Pick(r, []string{"a = 1; " + strings.Repeat("a = a + 1; ", r.Range(5, 60)) + "a", "1" + strings.Repeat("+1", r.Range(5, 200)), "x = [1,2,3]; y = {'k': x}; y.k[1] + " + strings.Repeat("(", 12) + "d6" + strings.Repeat(")", 12)})
 		}
 	default:
 		sc.Mode = "sweep"
@@ -179,6 +184,7 @@ type c07Run struct {
 	fate, coc int64
 	wodDC     int64
 	calls     int64 // sub-VM entries (function calls, computed loads): 100 operations each
+	retry     *Outcome // lazy families: the same use once more on the same VM
 }
 
 func c07Eval(sc *C07Scenario, limit int64, parseLimit uint64, m *Meter, budget int64, src string) c07Run {
@@ -239,11 +245,13 @@ func c07Lazy(sc *C07Scenario, m *Meter) c07Run {
 	case "rsum":
 		vm := cfg.NewVM()
 		r.o = DoCmd(vm, Cmd{Kind: "runexpr", Src: sum})
+		r.retry = DoCmd(vm, Cmd{Kind: "runexpr", Src: sum})
 	case "dsum":
 		cfg.Max = true
 		cfg.DefaultSide = sum
 		vm := cfg.NewVM()
 		r.o = DoCmd(vm, Cmd{Kind: "run", Src: "1d"})
+		r.retry = DoCmd(vm, Cmd{Kind: "run", Src: "1d"})
 	default:
 		vm := cfg.NewVM()
 		doc, _ := json.Marshal(map[string]any{"t": 8, "v": map[string]any{"expr": "return " + sum, "name": "big", "params": []string{}}})
@@ -254,9 +262,44 @@ func c07Lazy(sc *C07Scenario, m *Meter) c07Run {
 		}
 		vm.Attrs.Store("big", v)
 		r.o = DoCmd(vm, Cmd{Kind: "run", Src: "big()"})
+		r.retry = DoCmd(vm, Cmd{Kind: "run", Src: "big()"})
 	}
 	r.ticks, r.steps, r.rolls, r.cancelled = m.Ticks, m.Steps, m.Rolls, m.Cancelled
 	return r
+}
+
+// c07LazyUse restores the text as a function / computed value from JSON and uses it twice on one
+// VM (the second use is the retry after whatever the first one did).
+func c07LazyUse(sc *C07Scenario, parseLimit uint64, m *Meter) (first, second *Outcome) {
+	ResetGlobals(sc.GlobalSeed)
+	cfg := sc.Cfg
+	cfg.OpLimit = 0
+	cfg.ParseLimit = parseLimit
+	vm := cfg.NewVM()
+	var doc []byte
+	use := "lz"
+	if sc.Lazy == "func" {
+		doc, _ = json.Marshal(map[string]any{"t": int(ds.VMTypeFunction), "v": map[string]any{"expr": sc.Src, "name": "lz", "params": []string{}}})
+		use = "lz()"
+	} else {
+		doc, _ = json.Marshal(map[string]any{"t": int(ds.VMTypeComputedValue), "v": map[string]any{"expr": sc.Src}})
+	}
+	snap := append(append([]byte(`{"lz":`), doc...), '}')
+	if err := json.Unmarshal(snap, vm.Attrs); err != nil {
+		o := &Outcome{Kind: "run", Err: "decode: " + err.Error()}
+		return o, o
+	}
+	m.Reset()
+	m.Budget = 300_000
+	first = DoCmd(vm, Cmd{Kind: "run", Src: use})
+	c1 := m.Cancelled
+	m.Reset()
+	m.Budget = 300_000
+	second = DoCmd(vm, Cmd{Kind: "run", Src: use})
+	if c1 || m.Cancelled {
+		return nil, nil
+	}
+	return first, second
 }
 
 func sameResultOutcome(a, b *Outcome) string {
@@ -372,6 +415,10 @@ func c07Exec(raw json.RawMessage, res *RunResult) {
 		res.State(HashStr(fmt.Sprint(N)))
 
 	case "parse":
+		if sc.Lazy != "" {
+			c07ParseLazy(&sc, m, res, dg)
+			break
+		}
 		base := c07Eval(&sc, 0, 0, m, 300_000, sc.Src)
 		res.Evals++
 		dg.Add("base", sc.Src, base.o.Key())
@@ -433,10 +480,75 @@ func c07Exec(raw json.RawMessage, res *RunResult) {
 		default:
 			res.Probe("capacity_correct")
 		}
+		if rt := run.retry; rt != nil && !run.cancelled && run.o.Panic == "" {
+			res.Fault("retry_same_use")
+			switch {
+			case rt.Panic != "":
+				res.Violate("capacity-panic@"+sc.Family, "family %s at n=%d panicked when used a second time: %s", sc.Family, sc.N, rt.Panic)
+			case rt.Err == "" && rt.Ret != want:
+				res.Violate("capacity-truncated-on-retry@"+sc.Family, "family %s at n=%d: the second use on the same VM returned %s, the text denotes %s (first use: %s)", sc.Family, sc.N, trunc(rt.Ret, 80), want, run.o.Short())
+			}
+		}
 		res.Nontrivial = sc.N > 3
 		res.State(HashStr(sc.Family + fmt.Sprint(run.o.Err != "")))
 	}
 	res.Digest = dg.Hex()
+}
+
+// c07ParseLazy: the parse budget applied to a text that is compiled on first use in a sub-VM.
+// A refused use consumed no dice and changed no variable, so the retry on the same VM is refused
+// again or returns what the unlimited VM returns for its first use; a use that is not refused
+// returns what the unlimited VM returns for the same use.
+func c07ParseLazy(sc *C07Scenario, m *Meter, res *RunResult, dg *Digest) {
+	b1, b2 := c07LazyUse(sc, 0, m)
+	res.Evals += 2
+	if b1 == nil || b1.Panic != "" || b2.Panic != "" {
+		return
+	}
+	dg.Add("lazybase", sc.Lazy, sc.Src, b1.Key(), b2.Key())
+	r := NewRng(sc.GlobalSeed)
+	var ks []uint64
+	for k := uint64(1); k <= 40; k++ {
+		ks = append(ks, k)
+	}
+	for i := 0; i < 40; i++ {
+		ks = append(ks, uint64(r.Range(41, 30000)))
+	}
+	for _, k := range ks {
+		o1, o2 := c07LazyUse(sc, k, m)
+		res.Evals += 2
+		res.Fault("parse_budget_abort_point")
+		if o1 == nil {
+			continue
+		}
+		if o1.Panic != "" || o2.Panic != "" {
+			res.Violate("parse-budget-panic", "ParseExprLimit=%d, restored %s: panic %s%s\n  body=%q", k, sc.Lazy, o1.Panic, o2.Panic, sc.Src)
+			break
+		}
+		refused := o1.Err != "" && o1.Err != b1.Err
+		if refused {
+			res.Probe("parse_abort_landed")
+			res.Fault("retry_after_refusal")
+			// the refused first use consumed nothing, so an accepted retry is the unlimited VM's first use
+			if f := sameResultOutcome(b1, o2); o2.Err == "" && f != "" {
+				res.Violate("parse-refused-then-partial:"+f, "ParseExprLimit=%d: the first use of a restored %s was refused (%s); the retry on the same VM returned %s with no error, the complete text denotes %s: a partially compiled body was kept and executed\n  body=%q", k, sc.Lazy, trunc(o1.Err, 120), trunc(o2.Ret, 80), trunc(b1.Ret, 80), sc.Src)
+				break
+			}
+			continue
+		}
+		if f := sameResultOutcome(b1, o1); f != "" {
+			res.Violate("parse-partial-result:"+f, "ParseExprLimit=%d, restored %s: the first use is neither an error nor the unlimited VM's outcome (differs in %s)\n  body=%q\n  unlimited: %s\n  limited:   %s", k, sc.Lazy, f, sc.Src, b1.Short(), o1.Short())
+			break
+		}
+		if o2.Err != "" && o2.Err != b2.Err {
+			continue
+		}
+		if f := sameResultOutcome(b2, o2); f != "" {
+			res.Violate("parse-partial-result:"+f, "ParseExprLimit=%d, restored %s: the second use is neither an error nor the unlimited VM's outcome (differs in %s)\n  body=%q\n  unlimited: %s\n  limited:   %s", k, sc.Lazy, f, sc.Src, b2.Short(), o2.Short())
+			break
+		}
+	}
+	res.Nontrivial = true
 }
 
 func opOfLastTick(m *Meter) string {
